@@ -68,7 +68,9 @@ def run_check(prop, argv, props, rule, level="model_checking", quick_budget=240,
         fam_info.append({"family": name, "scenarios": len(scs), "states": agg["states"], "transitions": agg["transitions"],
                          "schedules": agg["schedules"], "invocations": agg["invocations"],
                          "history_depth": depth if depth is not None else (scs[0]["depth"] if scs else 0),
-                         "incomplete_scenarios": agg["incomplete_scenarios"], "wall_s": round(time.time() - t0, 1)})
+                         "incomplete_scenarios": agg["incomplete_scenarios"],
+                         "incomplete_scenario_names": sorted(set(agg.get("incomplete_scenario_names", [])))[:20],
+                         "wall_s": round(time.time() - t0, 1)})
         if agg["incomplete_scenarios"]:
             exhaustive = False
         total = agg if total is None else nxcheck.merge(total, agg)
